@@ -124,8 +124,14 @@ func init() {
 			return
 		}
 		if msg := bindParserTables(it, im); msg != "" {
-			emit(&Out{Item: it.ID, Kind: "inconsistent", What: msg})
-			return
+			if it.Par != nil && it.Par.Zip {
+				// for -zip the reader decodes the emitted blob itself; the generated init() decoding it differently
+				// is a finding about the generated code (the flag changes behaviour), not about the reader
+				st.violation("C12", it.ID+" zip-decode", "tables decoded by the generated init() differ from the data the generator encoded ("+msg+")", map[string]any{"mismatch": msg})
+			} else {
+				emit(&Out{Item: it.ID, Kind: "inconsistent", What: msg})
+				return
+			}
 		}
 		mode, _ := spec.Opt["mode"].(string)
 		c := ref.NewCFG(it.G)
